@@ -374,6 +374,10 @@ V('v07.30c', 'C07', 'F', 'C07.R4', 'the period loop stops on every error code (a
           &  .or. error_code < numerical_error_raise .or. error_code >= offset_predates_span) then""", """     else if(error_code /= 0) then"""))
 V('v07.s7', 'C07', 'S', None, 'the same stop condition written as a list of codes',
   (FORTRAN, 'FORTRAN_TEMPLATE', """          &  .or. error_code < numerical_error_raise .or. error_code >= offset_predates_span) then""", """          &  .or. (error_code >= 11 .and. error_code <= 14) .or. error_code == 41 .or. error_code == 42) then"""))
+V('v07.31', 'C07', 'F', 'C07.R4', 'revert F45: the wrapper subscripts an empty span',
+  (FORTRAN, 'FortranEngine.solve', "        # As in `iter_periods()`\n        if len(self.span) == 0:\n            raise SolutionError('Object `span` is empty: No periods to solve')\n\n", ''))
+V('v07.s8', 'C07', 'S', None, 'the empty-span test spelt with truthiness',
+  (FORTRAN, 'FortranEngine.solve', '        if len(self.span) == 0:\n            raise SolutionError(', '        if not len(self.span):\n            raise SolutionError('))
 # ---------------------------------------------------------------------------
 # C08
 # ---------------------------------------------------------------------------
@@ -905,6 +909,10 @@ V('v09.s2', 'C09', 'S', None, 'guard written with shape tuple', (CONT, SA, """  
                 self.__dict__['span']
             ):""", """            if value_as_array.shape != (len(self.__dict__['span']),):"""))
 
+V('v09.13', 'C09', 'F', 'C09.R3', 'revert F44: add_attribute takes a name that is a storage slot',
+  (CONT, 'VectorContainer.add_attribute', '        if name in self.__dict__:\n            raise DuplicateNameError(\n                f"Name \'{name}\' is already in use in current object e.g. to store a variable\'s values"\n            )\n\n', ''))
+V('v09.s7', 'C09', 'S', None, 'the free-name test spelt with hasattr-free membership in vars(self)',
+  (CONT, 'VectorContainer.add_attribute', '        if name in self.__dict__:\n            raise DuplicateNameError(\n                f"Name', '        if not (name not in self.__dict__):\n            raise DuplicateNameError(\n                f"Name'))
 # ---------------------------------------------------------------------------
 # C10
 # ---------------------------------------------------------------------------
